@@ -119,12 +119,17 @@ func opNames(ops []*token) []string {
 	return s
 }
 
+// kindSet is the violation class: the set of token kinds of a minimised history (a re-signed A
+// counts as A).
 func kindSet(ops []*token) string {
 	m := map[string]bool{}
 	for _, t := range ops {
 		k := t.kind
 		if t.vote == nil {
 			k = "claim:" + blkName[t.claim]
+		}
+		if k == "A~" {
+			k = "A"
 		}
 		m[k] = true
 	}
@@ -169,7 +174,12 @@ func (c *candidate) less(d *candidate) bool {
 	if len(c.ops) != len(d.ops) {
 		return len(c.ops) < len(d.ops)
 	}
-	return strings.Join(opNames(c.ops), ";") < strings.Join(opNames(d.ops), ";")
+	for i := range c.ops {
+		if c.ops[i].idx != d.ops[i].idx {
+			return c.ops[i].idx < d.ops[i].idx
+		}
+	}
+	return false
 }
 
 func (c *candidate) signature() string {
